@@ -238,6 +238,7 @@ var c01Constructs = []c01Construct{
 var c01Symbols = []string{"<", ">", "&", `"`, "'", ";", "#", "{{", "}}", "&amp;", "&lt;", "&#", "b", "/", " ", "=", "secret", "{{secret}}"}
 
 var c01Nasty = []string{
+	"a\rb", "\r<b>x</b>", "x\r\n{{secret}}",
 	"<b>x</b>", `"><script>alert(1)</script>`, `"><script>x</script>&amp;`, "&", "&amp;", "a & b;", "&lt;b&gt;", "</p><i>", "'", `"`, `" onmouseover="x`, "{{secret}}", "{{ secret }}", "}}{{secret}}{{",
 	"&#", "&#60;b&#62;", "<!--", "-->", "<![CDATA[", "a;b&c<d", "{{", "}}", "{{ x }}", `v-if="secret"`, "<template include=comp.vuego>", "&lt", "&quot;><b>", "x' y=\"z",
 	// values that close the element the sink sits in
